@@ -184,22 +184,27 @@ PROPS['C06'] = {
 SGR_SHAPES_Q = ['sgr_shape_one', 'sgr_shape_2_semi', 'sgr_shape_2_colon', 'sgr_shape_3_semis', 'sgr_shape_3_colons', 'sgr_shape_3_colon_semi',
                 'sgr_shape_4_semi', 'sgr_shape_5_semi', 'sgr_shape_10_semi', 'sgr_print_execute', 'sgr_to_ansi_color']
 SGR_FRAME = ['sgr_extract_frame_ground', 'sgr_extract_frame_esc', 'sgr_extract_frame_csi_param', 'sgr_extract_frame_csi_colon', 'sgr_extract_frame_osc', 'sgr_extract_frame_utf8']
-SGR_EMISSION = ['sgr_run_emission_3_plain', 'sgr_run_emission_3_bold', 'sgr_run_emission_4_plain']
+SGR_EMISSION = ['sgr_run_emission_2_plain', 'sgr_run_emission_2_bold', 'sgr_run_emission_3_plain', 'sgr_run_emission_3_bold']
 SGR_SHAPES_T = SGR_SHAPES_Q + ['sgr_shape_3_semi_colon', 'sgr_shape_4_colon3_semi', 'sgr_shape_5_colon', 'sgr_shape_6_semi']
 PROPS['C07'] = {
     'level': 'model_checking',
     'functions': ['anstream::adapter::wincon::WinconCapture::{csi_dispatch,print,execute,reset}', 'anstream::adapter::wincon::to_ansi_color',
+                  'anstream::adapter::wincon::next_bytes (run emission)', 'anstream::adapter::wincon::WinconBytes::extract_next (frame)',
                   'via C02: anstyle_parse::Parser::advance (the events csi_dispatch receives)'],
     'quick': {'kani': [{'crate': 'anstream', 'harnesses': SGR_SHAPES_Q + SGR_FRAME, 'timeout': 1500, 'mem_gb': 8, 'jobs': 8},
                        {'crate': 'anstream', 'harnesses': SGR_EMISSION[:2], 'timeout': 1500, 'mem_gb': 8, 'jobs': 3, 'flags': ['-Z', 'stubbing'], 'tag': 'em'}]},
     'thorough': {'kani': [{'crate': 'anstream', 'harnesses': SGR_SHAPES_T + SGR_FRAME, 'timeout': 3000, 'mem_gb': 8, 'jobs': 8},
-                          {'crate': 'anstream', 'harnesses': SGR_EMISSION, 'timeout': 3000, 'mem_gb': 8, 'jobs': 3, 'flags': ['-Z', 'stubbing'], 'tag': 'em'}]},
-    'bounded': {h: 'parameter-list shape fixed (see harness name: number of values and which are joined by `:`), values and entry style fully symbolic' for h in SGR_SHAPES_T if h.startswith('sgr_shape')},
+                          {'crate': 'anstream', 'harnesses': SGR_EMISSION, 'timeout': 3000, 'mem_gb': 12, 'jobs': 4, 'flags': ['-Z', 'stubbing'], 'tag': 'em'}]},
+    'bounded': {**{h: 'parameter-list shape fixed (see harness name: number of values and which are joined by `:`), values and entry style fully symbolic' for h in SGR_SHAPES_T if h.startswith('sgr_shape')},
+                **{h: 'carried parser state fixed by a concrete prefix (see harness name), style symbolic, chunk of 0-2 symbolic bytes' for h in SGR_FRAME},
+                **{h: 'chunk of 2 or 3 bytes (see harness name), each byte an arbitrary one of six parser events, styles plain/bold' for h in SGR_EMISSION}},
     'rule': 'one case = one parameter-list shape (count of values and ;/: pattern) verified for all 2^16 values per position x all entry styles x ignore flag x final byte x pending text; non-trivial = harness verified and its cover (a defined sequence that changes the style) reached',
     'assumptions': ['S4 (spec/sgr.rs) is the reference; codes the statement does not list (5, 22-29, 59) and groups the standards leave open (38 followed by neither 5 nor 2, values > 255, 4:n when another underline kind is already set) are unconstrained',
                     'Params are built through Params::push/extend exposed by an append-only cfg(kani) hook in the scratch copy of anstyle-parse; that the parser builds them so from bytes is C02',
-                    'next_bytes/extract_next (run emission over a chunk) is not under contract here: only csi_dispatch, print, execute'],
-    'explanation': 'csi_dispatch is verified against the S4 SGR semantics for enumerated parameter-list shapes with symbolic values: bounded in shape, complete in values and entry style.',
+                    'next_bytes (run emission) is verified with Parser::advance REPLACED by an uninterpreted event source (per byte an arbitrary one of: nothing, print, execute(LF), SGR 1, SGR 0, non-SGR CSI, performed through the real Perform impl; appended to the scratch copy of anstyle-parse as Parser::verif_advance_standin because Kani cannot stub a method of a generic impl by a free function): chunks of 2 bytes (quick) / 3 bytes (thorough), two styles (plain, bold) — bounded; that the real parser raises the right events for given bytes is C02',
+                    'extract_next is verified as a frame condition from six carried parser states reached with concrete prefixes (ground, ESC, CSI parameters, CSI after a colon, OSC string, inside a 3-byte character): bounded sample of states, symbolic style and chunk (0-2 bytes)',
+                    'WinconBytesIter::next is a one-line forward to next_bytes (read, not harnessed)'],
+    'explanation': 'csi_dispatch is verified against the S4 SGR semantics for enumerated parameter-list shapes with symbolic values: bounded in shape, complete in values and entry style. next_bytes cuts the text into runs exactly where the style in effect changes while text is pending, tags each run with the style in effect when it was printed, loses nothing and carries the style (against an uninterpreted event source); extract_next leaves parser state and style untouched.',
 }
 
 AUTO_C09 = {'crate': 'anstream', 'harnesses': ['auto_choice_precedence'], 'timeout': 900, 'flags': ['-Z', 'stubbing']}
@@ -220,13 +225,13 @@ PROPS['C09'] = {
 PROPS['C09']['thorough'] = PROPS['C09']['quick']
 PROPS['C08'] = {
     'level': 'model_checking',
-    'functions': ['AutoStream::{new,auto,always_ansi,always_ansi_,always,never,into_inner,current_choice,choice}', 'impl Write for AutoStream (write, write_vectored, flush, write_all)'],
+    'functions': ['AutoStream::{new,auto,always_ansi,always_ansi_,always,never,into_inner,current_choice,choice}', 'impl Write for AutoStream (write, write_vectored, flush, write_all, write_fmt)'],
     'quick': {'kani': [
         {'crate': 'anstream', 'harnesses': ['auto_new_never', 'auto_new_ansi_always', 'auto_new_always', 'auto_pass_one_write', 'auto_pass_all_write', 'auto_pass_vectored_write', 'auto_pass_flushes', 'auto_routed_one_write', 'auto_routed_all_write', 'auto_routed_vectored_write', 'auto_routed_flushes', 'auto_routed_write_fmt', 'lock_write_fmt_once_pass'], 'timeout': 1500, 'flags': ['-Z', 'stubbing', '-Z', 'restrict-vtable'], 'mem_gb': 12, 'io_error_unwind': 2, 'tag': 'rv'}]},
     'rule': 'one case = one harness over all colour choices / all four Write methods / symbolic buffers of <= 3 bytes; non-trivial = verified',
     'bounded': {**{h: 'one call of one method on a symbolic 2-byte buffer (every call is stateless in pass-through mode)' for h in ['auto_pass_one_write', 'auto_pass_all_write', 'auto_pass_vectored_write', 'auto_pass_flushes']},
                 **{h: 'one call of one method on a 2-byte buffer, scanner replaced by its recording stand-in, counting writer; that the call reaches the stripper with the right buffer under one lock is what is checked, StripStream itself is C06' for h in ['auto_routed_one_write', 'auto_routed_all_write', 'auto_routed_vectored_write', 'auto_routed_flushes']}},
-    'assumptions': ['write_fmt (both arms) is covered only for its lock discipline (C19) and, for the strip arm, its plumbing (C06); to_adapted_string is not covered',
+    'assumptions': ['write_fmt: with core::fmt::write replaced by the uninterpreted two-fragment formatter (see C06), the pass-through arm delivers the fragments unchanged (lock_write_fmt_once_pass) and the Never arm hands both fragments in place, in order, to the stream\'s own stripper with the state carried (auto_routed_write_fmt); what the stripper delivers is C06; to_adapted_string is not covered',
                     'the Never arm is verified to route through StripStream (C06 verifies that stream); the Windows console arm is outside the claim',
                     'inner writers other than the in-crate mock (Vec<u8>, Box<dyn Write>, File) are assumed to behave alike (the code is generic in S)'],
     'explanation': 'Constructor dispatch for all choices, the reported mode, byte-identical forwarding in pass-through mode and routing of the Never mode through the strip stream, all through one lock acquisition per call.',
@@ -302,12 +307,13 @@ PROPS['C18'] = {
     'level': 'model_checking',
     'functions': ['anstream::wincon::{write,write_all,cap_wincon_color} (cut verbatim from the working tree and compiled on this platform)'],
     'quick': {'kani': [{'crate': 'anstream', 'harnesses': ['wincon_cap_color', 'wincon_write_reports_progress'] + WINCON_WA_SCRIPTED, 'timeout': 2400, 'mem_gb': 12, 'jobs': 6, 'flags': ['-Z', 'stubbing', '-Z', 'restrict-vtable'], 'io_error_unwind': 2, 'tag': 'rv'}]},
-    'bounded': {'wincon_write_reports_progress': 'the styled-run extractor replaced by a recording stand-in yielding 0-2 runs with arbitrary fg/bg colours and 1-2 byte texts; at most one misbehaving console call (any prefix, zero, Interrupted, Other)'},
+    'bounded': {'wincon_write_reports_progress': 'the styled-run extractor replaced by a recording stand-in yielding 0-2 runs with arbitrary fg/bg colours and 1-2 byte texts; at most one misbehaving console call (any prefix, zero, Interrupted, Other)',
+                **{h: 'one concrete extractor answer and console script (see harness name), colours symbolic' for h in WINCON_WA_SCRIPTED}},
     'rule': 'one case = one harness over all extractor answers (<= 2 runs) x all console scripts (<= 2 faults); non-trivial = verified with covers reached',
     'assumptions': ['modular: which runs the extractor yields for a given input (visible text in order, no escape byte, style in effect) is C02 + C07; here write/write_all are verified to hand over exactly the runs they are given',
-                    'write_all (retry loop: each run handed over exactly once, Interrupted retried, WriteZero) is NOT verified: its harnesses (wincon_write_all_plumbing, _single_run, _nonzero, _online — recording and online-checking consoles; kept in the source) do not finish in CBMC (> 15-30 min, 4-10 GB) in any shape tried, also not with the io::Error recursion limit',
+                    'write_all (retry loop: each run handed over exactly once, Interrupted retried, WriteZero): the SYMBOLIC harnesses (wincon_write_all_plumbing, _single_run, _nonzero, _online; kept in the source) do not finish in CBMC (> 15-30 min, 4-10 GB) in any shape tried, also not with the io::Error recursion limit. It is checked on nine SCRIPTED cases (wincon_write_all_s_*): number of runs (0-2), text lengths and every console outcome concrete (accept all / one byte / Interrupted / Other / nothing, up to four calls), colours symbolic — a bounded sample, not a proof',
                     'impl Write for WinconStream, write_fmt and write_vectored only compile on Windows and are not covered'],
-    'explanation': 'The platform-independent functions of the console stream are extracted verbatim; cap_wincon_color is verified completely, `write` against an uninterpreted run extractor and a recording console whose every call may accept any prefix, nothing, or fail.',
+    'explanation': 'The platform-independent functions of the console stream are extracted verbatim; cap_wincon_color is verified completely, `write` against an uninterpreted run extractor and a recording console whose every call may accept any prefix, nothing, or fail; `write_all` on nine scripted extractor/console cases with an online-checking console (each call offers exactly the not-yet-accepted rest of the current run with capped colours, no new run before the previous one is complete, exact number of calls, fatal outcomes surface with their kind).',
 }
 PROPS['C18']['thorough'] = PROPS['C18']['quick']
 
